@@ -328,8 +328,9 @@ theorem connectedCode_spec (G : Graph n) (b : Bool) (h : connectedCode G = some 
 
 /-- every object of static storage duration in `include/tapkee`, and every use of the C library's hidden
     generator state, is accounted for: it is immutable, or never named in a function body, or output-only (logger),
-    or a verification hook, or a returned literal, or a random stream that only randomised stages / the VP-tree's
-    vantage choice consume.  The table is regenerated from the source on every run: a new `static` cache gets the
+    or a verification hook, or a returned literal, or a random stream that only randomised stages consume (the VP-tree
+    owns its vantage generator since F-VP-RAND; only its `CUSTOM_UNIFORM_RANDOM_FUNCTION` override branch may read the
+    global stream — a rand() call anywhere else in it is not accounted for).  The table is regenerated from the source on every run: a new `static` cache gets the
     role `unknown` (or a random stream becomes reachable from a deterministic method) and this proof fails. -/
 theorem no_hidden_state : ∀ o ∈ Gen.Statics.table, Statics.accounted o = true := by
   have h : Gen.Statics.table.all Statics.accounted = true := by decide
